@@ -24,7 +24,11 @@ impl<const A: u64, const C: u64> LinearCongruentialGenerator64<A, C> {
 
     pub fn next_raw(&mut self) -> u64 {
         self.state = self.state.wrapping_mul(A).wrapping_add(C);
-        self.state
+        // the low bits of an LCG state have tiny periods (bit k repeats every 2^(k+1) steps),
+        // which made `next(0..4)` cycle with period 4: output a bijective scramble of the state
+        let mut z = self.state;
+        z = (z ^ (z >> 33)).wrapping_mul(0xff51afd7ed558ccd);
+        z ^ (z >> 33)
     }
 }
 
